@@ -299,9 +299,98 @@ func ruleGlobals(c *Ctx) *RuleResult {
 			r.note("table entry unused: %s", k)
 		}
 	}
+	// (e) a package-level value that non-initialisation code copies must not carry a
+	// pointer to an object made at initialisation: every runtime that copies it gets the
+	// same object (a default option, a default configuration), and whatever one runtime
+	// does to that object the others see. Immutable kinds are exempt: functions, errors,
+	// compiled regular expressions, strings, and *GoFunction (written only during
+	// initialisation, which (a)-(c) check).
+	for _, pk := range p.Pkgs {
+		rel := relPkg(pk.PkgPath)
+		if !luaReachablePkg(rel) {
+			continue
+		}
+		sp := p.SSAPkgs[pk.PkgPath]
+		if sp == nil {
+			continue
+		}
+		initf := sp.Func("init")
+		if initf == nil {
+			continue
+		}
+		forEachInstr(initf, func(ins ssa.Instruction) {
+			st, ok := ins.(*ssa.Store)
+			if !ok {
+				return
+			}
+			g := globalOf(st.Addr, 0)
+			if g == nil || g.Pkg != sp {
+				return
+			}
+			// the stored value: a pointer (possibly inside an interface) to something allocated here
+			v := st.Val
+			if mi, ok := v.(*ssa.MakeInterface); ok {
+				v = mi.X
+			}
+			pt, isPtr := v.Type().Underlying().(*types.Pointer)
+			if !isPtr {
+				return
+			}
+			if immutablePointee(pt.Elem()) {
+				return
+			}
+			fresh := false
+			switch x := v.(type) {
+			case *ssa.Alloc:
+				fresh = x.Heap
+			case *ssa.Call:
+				fresh = true // a constructor call
+			}
+			if !fresh {
+				return
+			}
+			// is the global (or the field holding the pointer) read outside init?
+			readers := []string{}
+			for _, f := range p.ModFuncs() {
+				if isInitFunc(f) || f.Blocks == nil || !luaReachablePkg(relPkg(funcPkgPath(f))) {
+					continue
+				}
+				forEachInstr(f, func(o ssa.Instruction) {
+					if u, ok := o.(*ssa.UnOp); ok && u.Op == token.MUL && globalOf(u.X, 0) == g {
+						readers = append(readers, fnKey(f))
+					}
+				})
+			}
+			if len(readers) == 0 {
+				return
+			}
+			key := "shared-default-object:" + gname(g) + ":" + typeKey(pt.Elem())
+			if seen[key] {
+				return
+			}
+			seen[key] = true
+			if why, ok := globalsTable[key]; ok {
+				r.ok("table: " + key + " — " + why)
+				return
+			}
+			r.fail(key, p.InstrPos(ins), fmt.Sprintf("the package-level %s holds a pointer to a %s made at initialisation and is copied at run time by %s: every runtime that copies it shares that one object, so state one runtime puts into it (and any unsynchronised access) is visible to the others", gname(g), typeKey(pt.Elem()), readers[0]))
+		})
+	}
 	// positive control: the summary machinery must know that SolemnlyDeclareCompliance writes through its receiver
 	if decl := p.Func("runtime", "(*GoFunction).SolemnlyDeclareCompliance"); decl == nil || !wt[decl][0] {
 		r.broken("positive control failed: (*GoFunction).SolemnlyDeclareCompliance is not recognised as writing through its receiver")
 	}
 	return r
+}
+
+// immutablePointee: types whose values are not modified after construction.
+func immutablePointee(t types.Type) bool {
+	switch typeKey(t) {
+	case "regexp.Regexp", "errors.errorString", "fmt.wrapError", "runtime.GoFunction", "runtime.Error":
+		return true
+	}
+	if _, ok := t.Underlying().(*types.Signature); ok {
+		return true
+	}
+	return false
 }
